@@ -317,11 +317,16 @@ def fmt_signature(prog, body, depth=0):
 
 
 class Prefixed:
-    """a view of the report that files another checker's rule instances under this property"""
+    """a view of the report that files another checker's rule instances under this property; with `only`, just the rules
+    whose name starts with one of the given prefixes (the others are not this property's statement)"""
 
-    def __init__(self, rep, pre):
+    def __init__(self, rep, pre, only=None):
         object.__setattr__(self, '_rep', rep)
         object.__setattr__(self, '_pre', pre)
+        object.__setattr__(self, '_only', only)
+
+    def _mine(self, rule):
+        return self._only is None or rule.startswith(tuple(self._only))
 
     def __getattr__(self, n):
         return getattr(self._rep, n)
@@ -332,15 +337,103 @@ class Prefixed:
         setattr(self._rep, n, v)
 
     def ok(self, rule, key, *a, **kw):
+        if not self._mine(rule):
+            return None
         return self._rep.ok(self._pre + rule, key, *a, **kw)
 
     def fail(self, rule, key, *a, **kw):
+        if not self._mine(rule):
+            return None
         return self._rep.fail(self._pre + rule, key, *a, **kw)
 
     def check(self, cond, rule, key, *a, **kw):
+        if not self._mine(rule):
+            return cond
         return self._rep.check(cond, self._pre + rule, key, *a, **kw)
 
     def absorb_engine(self, E, rule='O1-panic-freedom', **kw):
+        if not self._mine(rule):
+            return 0
         return self._rep.absorb_engine(E, rule=self._pre + rule, **kw)
 
 
+def static_reach(prog, roots, crates=('rs1090',)):
+    """bodies of the given crates reachable from the roots through resolved callees, closures / coroutines passed or
+    built inside a reached body, and trait-method callees resolved to a workspace impl (a static over-approximation)"""
+    by_prefix = {}
+    for b in prog.bodies.values():
+        if b['kind'] != 'fn':
+            by_prefix.setdefault(b['name'].split('::{closure')[0].split('::{coroutine')[0], []).append(b)
+    seen, work = {}, list(roots)
+    while work:
+        b = work.pop()
+        if b is None or b['id'] in seen or b['crate'] not in crates:
+            continue
+        seen[b['id']] = b
+        work.extend(by_prefix.get(b['name'], []))
+        for bb in b['blocks']:
+            t = bb['t']
+            if t and t['k'] == 'call' and t['callee']:
+                tgt = prog.bodies.get(t['callee'].get('rdid') or '')
+                if tgt is not None:
+                    work.append(tgt)
+    return list(seen.values())
+
+
+# direct uses of state that outlives one call: what makes "decode the same bytes again" able to answer differently
+STATE_DENY = (('LocalKey', ('with', 'try_with', 'set', 'replace', 'take', 'with_borrow', 'with_borrow_mut')),
+              ('RefCell', ('borrow_mut', 'try_borrow_mut', 'replace', 'replace_with', 'swap', 'take')),
+              ('Cell', ('set', 'replace', 'take', 'swap', 'update')),
+              ('Mutex', ('lock', 'try_lock', 'get_mut')), ('RwLock', ('write', 'try_write')),
+              ('Atomic', ('store', 'swap', 'fetch_add', 'fetch_sub', 'fetch_or', 'fetch_and', 'fetch_xor', 'fetch_max', 'fetch_min',
+                          'fetch_update', 'compare_exchange', 'compare_exchange_weak', 'compare_and_swap')))
+
+
+def _static_locals(prog, b):
+    """locals of a body that hold (a reference derived from) a constant pointer: the address of a static item"""
+    S = set()
+    changed = True
+    while changed:
+        changed = False
+        for bb in b['blocks']:
+            for s in bb['s']:
+                if s['k'] != 'assign' or s['pl']['p'] or s['pl']['l'] in S:
+                    continue
+                ty = prog.types[b['locals'][s['pl']['l']]]
+                if ty['k'] not in ('ref', 'ptr'):
+                    continue
+                rv = s['rv']
+                if rv['k'] in ('use', 'cast') and rv['op']['k'] == 'const':
+                    S.add(s['pl']['l'])
+                    changed = True
+                else:
+                    src = rv['pl'] if rv['k'] in ('ref', 'rawptr') else (rv['op']['pl'] if rv['k'] in ('use', 'cast') and rv['op']['k'] in ('copy', 'move') else None)
+                    if src is not None and src['l'] in S:
+                        S.add(s['pl']['l'])
+                        changed = True
+    return S
+
+
+def hidden_state_calls(prog, bodies):
+    """[(body, callee name, line)] for the direct calls of the bodies that enter thread-local state, or that write
+    interior-mutable / atomic state reached from the address of a static item (a RefCell in a local variable is not state)"""
+    out = []
+    for b in bodies:
+        S = None
+        for bb in b['blocks']:
+            t = bb['t']
+            if not (t and t['k'] == 'call' and t['callee']):
+                continue
+            c = t['callee']
+            nm = c.get('rname') or c.get('name') or c.get('did') or ''
+            item = c.get('item')
+            for ty, items in STATE_DENY:
+                if item in items and ((ty + '<') in nm or (ty + '::') in nm or ('::' + ty) in nm) and ('std::' in nm or 'core::' in nm):
+                    if ty != 'LocalKey':
+                        if S is None:
+                            S = _static_locals(prog, b)
+                        a0 = t['args'][0] if t['args'] else None
+                        if not (a0 and (a0['k'] == 'const' or (a0['k'] in ('copy', 'move') and a0['pl']['l'] in S))):
+                            continue
+                    out.append((b, nm, t.get('sp')))
+    return out
